@@ -938,6 +938,13 @@ Proof.
       destruct F9 as [(A & B & C)|(A & B)]; [left|right]; conj; fin.
 Qed.
 
+Lemma finish_loop_empty n s out off : last_bytes_len s = 0 ->
+  finish_loop (S n) s out off = Val (mkF s out off Success).
+Proof. intros H. cbn [finish_loop]. rewrite H. reflexivity. Qed.
+
+Lemma of_nat_256 : N.of_nat 256 = 256.
+Proof. vm_compute. reflexivity. Qed.
+
 Definition finish_post (s : BroCatli) (out : list N) (off : N) (f : fret) : Prop :=
   InvP (f_s f) /\ new_stream_pending (f_s f) = new_stream_pending s /\ window_size (f_s f) = window_size s /\
   off <= f_off f /\ f_off f <= lenN out /\ lenN (f_out f) = lenN out /\ bytes_ok (f_out f) /\
@@ -967,14 +974,14 @@ Proof.
     (off < lenN out -> f_rc f = Success \/ off < f_off f)).
   { destruct Hc as [Hc|Hc].
     - pose proof HI1 as [H1 H2 H3 H4 H5 H6 H7 H8 H9].
-      destruct (finish_loop_ok 256 s1 out off HI1 Hc Hout Hoff ltac:(cbn; lia)) as (f & Ef & F1 & F2 & F3 & F4 & F5 & F6 & F7 & F8 & F9 & F10).
+      destruct (finish_loop_ok 256 s1 out off HI1 Hc Hout Hoff ltac:(rewrite of_nat_256; lia)) as (f & Ef & F1 & F2 & F3 & F4 & F5 & F6 & F7 & F8 & F9 & F10).
       exists f. conj; try fin.
       + destruct F9 as [(A & _)|(A & B)]; [left; exact A|right; split; assumption].
       + intros Hlt. destruct (N.eq_dec (last_bytes_len s1) 0) as [E0|E0]; [|right; apply F10; assumption].
         destruct F9 as [(A & _)|(A & B)]; [left; exact A|right; lia].
     - (* nothing held back: the loop does not run *)
-      exists (mkF s1 out off Success). cbn [finish_loop]. rewrite Hc. cbn [N.eqb]. fields. conj; try fin;
-        try (left; reflexivity). }
+      exists (mkF s1 out off Success). change 256%nat with (S 255). rewrite (finish_loop_empty 255 s1 out off Hc). fields.
+      conj; try fin; try (left; reflexivity). }
   destruct Hloop as (f & Ef & F1 & F3 & F4 & F5 & F6 & F7 & F8 & F9 & F10). rewrite Ef.
   destruct F9 as [F9|[F9 F9']].
   - rewrite F9. destruct (any_bytes_emitted (f_s f)) eqn:Ea; cbn [negb].
@@ -990,3 +997,68 @@ Proof.
         conj; try fin; try (left; reflexivity).
   - rewrite F9. exists f. split; [reflexivity|]. unfold finish_post. conj; try fin; try (right; exact F9).
 Qed.
+
+(* ------------------------------------------------------------------ statements over the boolean invariant *)
+Theorem stream_total_inv s input in_off out off :
+  Inv s -> Started s -> bytes_ok input -> bytes_ok out -> in_off <= lenN input -> off <= lenN out ->
+  match stream s input in_off out off with
+  | Panic => False
+  | Val r =>
+      Inv (r_s r) /\ Started (r_s r) /\
+      in_off <= r_in r /\ r_in r <= lenN input /\ off <= r_off r /\ r_off r <= lenN out /\
+      lenN (r_out r) = lenN out /\ bytes_ok (r_out r) /\
+      r_rc r <> Success /\
+      (r_rc r = NeedsMoreInput -> r_in r = lenN input) /\
+      (r_rc r = NeedsMoreOutput -> r_off r = lenN out) /\
+      (r_rc r = NeedsMoreInput \/ r_rc r = NeedsMoreOutput -> off < lenN out -> in_off < lenN input ->
+         in_off < r_in r \/ off < r_off r)
+  end.
+Proof.
+  intros HI HS Hin Hout Hio Hoo. apply Inv_P in HI.
+  destruct (stream_total s input in_off out off HI HS Hin Hout Hio Hoo) as (r & Er & Pr). rewrite Er.
+  unfold stream_post in Pr. destruct Pr as (A & B). split; [apply Inv_P; exact A|exact B].
+Qed.
+
+Theorem finish_total_inv s out off : Inv s -> bytes_ok out -> off <= lenN out ->
+  match finish s out off with
+  | Panic => False
+  | Val f =>
+      Inv (f_s f) /\ new_stream_pending (f_s f) = new_stream_pending s /\ window_size (f_s f) = window_size s /\
+      off <= f_off f /\ f_off f <= lenN out /\ lenN (f_out f) = lenN out /\ bytes_ok (f_out f) /\
+      (f_rc f = Success \/ f_rc f = NeedsMoreOutput) /\
+      (f_rc f = NeedsMoreOutput -> f_off f = lenN out) /\
+      (off < lenN out -> f_rc f = Success \/ off < f_off f)
+  end.
+Proof.
+  intros HI Hout Hoo. apply Inv_P in HI.
+  destruct (finish_total s out off HI Hout Hoo) as (f & Ef & Pf). rewrite Ef.
+  unfold finish_post in Pf. destruct Pf as (A & B). split; [apply Inv_P; exact A|exact B].
+Qed.
+
+(* the C ABI wrapper on a state that satisfies the invariant is the native operation *)
+Lemma ffi_stream_is_native s input out : Inv s ->
+  exists st, to_state s = Val st /\
+    broccoli_concat_stream st input out =
+      match stream s input 0 out 0 with
+      | Panic => Panic
+      | Val r => match to_state (r_s r) with
+                 | Panic => Panic
+                 | Val st' => Val (mkC st' (r_in r) (r_out r) (r_off r) (r_rc r))
+                 end
+      end.
+Proof.
+  intros HI. destruct (of_to_state_id s HI) as (st & E1 & _ & E2). exists st. split; [exact E1|].
+  unfold broccoli_concat_stream. rewrite E2. reflexivity.
+Qed.
+
+(* a non-trivial state that satisfies every hypothesis: in the middle of emitting a realigned
+   header (3 of 4 bytes still to write), tail bit offset 5 *)
+Definition example_state : BroCatli :=
+  mkBC 21 0 1 true true 5 22 (Some (mkNSD [1; 2; 3; 4; 0] 4 (Some 1))).
+Example example_state_ok :
+  Inv example_state /\ Started example_state /\
+  match stream example_state [7; 8; 9] 0 [0; 0] 0 with
+  | Val r => r_rc r = NeedsMoreOutput /\ r_off r = 2 /\ r_in r = 0
+  | Panic => False
+  end.
+Proof. vm_compute. repeat split; reflexivity. Qed.
